@@ -102,6 +102,8 @@ func flip(b []byte, i int) []byte {
 	return c
 }
 
+var malformedKind int
+
 func auxMutants(otherCoinbase common.Address) []auxMutant {
 	plain := func(name string, f func(s *donorSpec) bool) auxMutant { // spec changed AFTER signing: the old signature is attached
 		return auxMutant{name, func(s donorSpec, sig []byte, wh *types.WorkObjectHeader) (*types.AuxPow, func(*types.WorkObjectHeader), bool) {
@@ -197,6 +199,35 @@ func auxMutants(otherCoinbase common.Address) []auxMutant {
 				ap2 = []byte{}
 			}
 			return types.NewAuxPow(s.powID, s.donorHeader(root), ap2, sig, s.branch, tx), nil, true
+		}},
+		// two fields crafted together: a sibling that is not a 32-byte hash and a donor header that
+		// declares the all-zero merkle root (re-signed by the template signers, donor work re-done):
+		// a rule that gives malformed branches "no root" would make every coinbase lie under it
+		{"merkle/malformed-sibling+zero-donor-root", func(s donorSpec, _ []byte, wh *types.WorkObjectHeader) (*types.AuxPow, func(*types.WorkObjectHeader), bool) {
+			br := append([][]byte{}, s.branch...)
+			if len(br) == 0 {
+				br = append(br, make([]byte, 32))
+			}
+			switch malformedKind % 3 {
+			case 0:
+				br[0] = append([]byte{}, br[0][:31]...)
+			case 1:
+				br[0] = append(append([]byte{}, br[0]...), 0x5a)
+			default:
+				br[0] = []byte{}
+			}
+			malformedKind++
+			s.branch = br
+			sig, err := s.sign()
+			if err != nil {
+				return nil, nil, false
+			}
+			tx := s.coinbaseTx(s.commitment(wh.SealHash()))
+			ap2 := s.auxPow2
+			if ap2 == nil {
+				ap2 = []byte{}
+			}
+			return types.NewAuxPow(s.powID, s.donorHeader([32]byte{}), ap2, sig, s.branch, tx), nil, true
 		}},
 		{"merkle/coinbase-changed-root-kept", func(s donorSpec, sig []byte, wh *types.WorkObjectHeader) (*types.AuxPow, func(*types.WorkObjectHeader), bool) {
 			ap := s.assemble(wh.SealHash(), sig)
